@@ -399,7 +399,7 @@ func (g *Gen) monitorFor(pt types.Type, field int) *MonitorDef {
 		return nil
 	}
 	for _, md := range g.cs.Monitors {
-		if md.Pkg == n.Obj().Pkg().Path() && md.Type == n.Obj().Name() && sty.Field(field).Name() == md.Lock {
+		if md.Pkg == n.Obj().Pkg().Path() && sameStructType(n, md.Type) && sty.Field(field).Name() == md.Lock {
 			return md
 		}
 	}
@@ -412,7 +412,7 @@ func (g *Gen) monitorOfType(pt types.Type) *MonitorDef {
 		return nil
 	}
 	for _, md := range g.cs.Monitors {
-		if md.Pkg == n.Obj().Pkg().Path() && md.Type == n.Obj().Name() {
+		if md.Pkg == n.Obj().Pkg().Path() && sameStructType(n, md.Type) {
 			return md
 		}
 	}
